@@ -606,3 +606,355 @@ Proof.
   splits; [eapply lrel0_trans; eassumption|congruence|exact A3].
 Qed.
 End RaftPass2.
+
+(* ---- M/RawNode.v: the calls that neither produce nor consume a Ready ---- *)
+Definition idle_op (o : op) : bool :=
+  match o with
+  | OStep _ | OTick | OCampaign | OPropose _ _ | OProposeCC _ _ _ _ | OApplyCC _ | OPing
+  | OReportUnreachable _ | OReportSnapshot _ _ | ORequestSnapshot | OTransferLeader _
+  | OReadIndex _ => true
+  | _ => false
+  end.
+
+Definition op_snap (o : op) (s : snapshot) : Prop :=
+  match o with OStep m => snap_of m s | _ => False end.
+
+Lemma set_raft_frames (n : rawnode) r :
+  rn_records (n <| rn_raft := r |>) = rn_records n
+  /\ rn_max_number (n <| rn_raft := r |>) = rn_max_number n
+  /\ rn_commit_since_index (n <| rn_raft := r |>) = rn_commit_since_index n.
+Proof. repeat split. Qed.
+
+Theorem idle_exec_rel n o n' ot :
+  idle_op o = true -> exec n o = Ok (n', ot) ->
+  lrel (op_snap o) (nlog n) (nlog n')
+  /\ rn_records n' = rn_records n /\ rn_max_number n' = rn_max_number n
+  /\ rn_commit_since_index n' = rn_commit_since_index n /\ ot = no_out.
+Proof.
+  intros Hi H. unfold nlog.
+  assert (Hplain : forall m x, step (rn_raft n) m = Ok x -> m_type m <> MsgSnapshot ->
+            lrel (op_snap o) (r_log (rn_raft n)) (r_log (fst x))).
+  { intros m [r1 c1] Hs Hn. cbn [fst]. eapply step_plain_rrel; eassumption. }
+  destruct o; try discriminate Hi; cbn [exec] in H; unfold quiet, quiet1 in H;
+    inv_bind H; inversion H; subst; clear H; cbn [fst].
+  - (* step *)
+    unfold rn_step, lift2 in Hx. destruct (is_local_msg (m_type m)).
+    { inversion Hx; subst. splits; auto. apply lrel_refl. }
+    match type of Hx with (if ?c then _ else _) = _ => destruct c end.
+    2:{ inversion Hx; subst. splits; auto. apply lrel_refl. }
+    inv_bind Hx. destruct x0 as [r1 c1]. inversion Hx; subst. cbn [fst]. splits; auto. cbn.
+    eapply (step_rrel (snap_of m)); [|exact Hx0]. intros E. split; [exact E|reflexivity].
+  - unfold rn_tick in Hx. inv_bind Hx. destruct x0 as [r1 b1]. inversion Hx; subst. cbn [fst].
+    splits; auto. cbn. eapply tick_rrel; exact Hx0.
+  - unfold rn_campaign, lift2 in Hx. inv_bind Hx. inversion Hx; subst. cbn [fst]. splits; auto. cbn.
+    eapply Hplain; [exact Hx0|cbn; discriminate].
+  - unfold rn_propose, lift2 in Hx. inv_bind Hx. inversion Hx; subst. cbn [fst]. splits; auto. cbn.
+    eapply Hplain; [exact Hx0|cbn; discriminate].
+  - unfold rn_propose_conf_change, lift2 in Hx. inv_bind Hx. inversion Hx; subst. cbn [fst]. splits; auto. cbn.
+    eapply Hplain; [exact Hx0|cbn; discriminate].
+  - unfold rn_apply_conf_change in Hx. inv_bind Hx. destruct x0 as [r1 o1]. inversion Hx; subst. cbn [fst].
+    splits; auto. cbn. eapply raft_apply_conf_change_rrel; exact Hx0.
+  - unfold rn_ping, lift in Hx. inv_bind Hx. inversion Hx; subst. splits; auto. cbn.
+    apply rrel_eq. eapply ping_log; exact Hx0.
+  - unfold rn_report_unreachable in Hx. inv_bind Hx. inversion Hx; subst. splits; auto. cbn.
+    eapply Hplain; [exact Hx0|cbn; discriminate].
+  - unfold rn_report_snapshot in Hx. inv_bind Hx. inversion Hx; subst. splits; auto. cbn.
+    eapply Hplain; [exact Hx0|cbn; discriminate].
+  - unfold rn_request_snapshot, lift2 in Hx. inv_bind Hx. inversion Hx; subst. cbn [fst]. splits; auto. cbn.
+    apply rrel_eq. destruct x0 as [ra ca]. eapply request_snapshot_log. exact Hx0.
+  - unfold rn_transfer_leader in Hx. inv_bind Hx. inversion Hx; subst. splits; auto. cbn.
+    eapply Hplain; [exact Hx0|cbn; discriminate].
+  - unfold rn_read_index in Hx. inv_bind Hx. inversion Hx; subst. splits; auto. cbn.
+    eapply Hplain; [exact Hx0|cbn; discriminate].
+Qed.
+
+(* ================================================================== *)
+(* Part 2. The application: ghost state, contract, environment          *)
+(* ================================================================== *)
+
+(* where the application is in persisting the Ready it holds *)
+Inductive wstage := WSnap | WEnts | WDone.
+Inductive phase := Idle | Writing (rd : ready) (st : wstage).
+
+Record appstate := mkApp {
+  a_store : MemStorage.mem;   (* the application's Storage (the library only reads it) *)
+  a_phase : phase;            (* the Ready being persisted, if any *)
+  a_hist : hist;              (* C07's history variable: everything handed out for apply *)
+  a_applied : N;              (* the applied index last reported to the library *)
+  a_got : bool                (* some committed entry has been handed out *)
+}.
+
+(* the hand-out cursor as the application sees it (= commit_since_index) *)
+Definition a_cursor (a : appstate) : N := fst (a_hist a) + N.of_nat (length (snd (a_hist a))).
+
+(* after ready(): the snapshot first (when the Ready carries one), then the entries *)
+Definition stage1 (rd : ready) : wstage := match rd_entries rd with [] => WDone | _ => WEnts end.
+Definition stage0 (rd : ready) : wstage :=
+  if s_index (rd_snapshot rd) =? 0 then stage1 rd else WSnap.
+
+(* a write that leaves entries and snapshot point alone (hard state, conf state) *)
+Definition meta_write (st m : MemStorage.mem) : Prop :=
+  entries m = entries st /\ snap_index m = snap_index st /\ snap_term m = snap_term st
+  /\ trig_log m = trig_log st.
+
+(* THE CONTRACT: what a contract-abiding application may do in ghost state [a] *)
+Definition app_ok (a : appstate) (o : op) : Prop :=
+  match o with
+  (* no library call between ready() and the advance call of that Ready *)
+  | OStep _ | OTick | OCampaign | OPropose _ _ | OProposeCC _ _ _ _ | OPing
+  | OReportUnreachable _ | OReportSnapshot _ _ | ORequestSnapshot | OTransferLeader _
+  | OReadIndex _ | OReady | OOnPersistReady _ | OAdvanceApply => a_phase a = Idle
+  (* a membership change is applied only for a committed entry that was handed out *)
+  | OApplyCC _ => a_phase a = Idle /\ a_got a = true
+  (* advance only with the Ready just received, after it has been written in full *)
+  | OAdvance rd | OAdvanceAppend rd | OAdvanceAppendAsync rd => a_phase a = Writing rd WDone
+  (* report applied only up to what was handed out *)
+  | OAdvanceApplyTo x => a_phase a = Idle /\ x <= a_cursor a
+  (* storage writes: exactly the Ready (snapshot, then entries); hard/conf state at any
+     time; compaction only when no Ready is being persisted, at or below the applied index
+     reported to the library, keeping the entry at the compaction index *)
+  | OSetStore m =>
+      meta_write (a_store a) m
+      \/ match a_phase a with
+         | Writing rd WSnap => apply_snapshot (a_store a) (rd_snapshot rd) = Ok (m, SOk tt)
+         | Writing rd WEnts => append (a_store a) (rd_entries rd) = Ok m
+         | Writing _ WDone => False
+         | Idle => exists ci, compact (a_store a) ci = Ok m /\ ci <= a_applied a
+                              /\ ci < next_of (a_store a)
+         end
+  end.
+
+(* how the ghost state follows one call; [n] is the node the call is made on, used only
+   for what the call RETURNS (the Ready of ready(); [ot] is exec's output) *)
+Definition with_obs (a : appstate) (ot : out) (st : MemStorage.mem) (ph : phase) (ap : N) : appstate :=
+  mkApp st ph (hist_step (a_hist a) ot) ap (a_got a || nonempty (snd ot)).
+
+Inductive app_next (a : appstate) (n : rawnode) : op -> out -> appstate -> Prop :=
+| AN_idle o ot : idle_op o = true -> app_ok a o ->
+    app_next a n o ot (with_obs a ot (a_store a) Idle (a_applied a))
+| AN_ready n1 rd ot : a_phase a = Idle -> rn_ready n = Ok (n1, rd) ->
+    app_next a n OReady ot (with_obs a ot (a_store a) (Writing rd (stage0 rd)) (a_applied a))
+| AN_meta m ot : meta_write (a_store a) m ->
+    app_next a n (OSetStore m) ot (with_obs a ot m (a_phase a) (a_applied a))
+| AN_snap rd m ot : a_phase a = Writing rd WSnap ->
+    apply_snapshot (a_store a) (rd_snapshot rd) = Ok (m, SOk tt) ->
+    app_next a n (OSetStore m) ot (with_obs a ot m (Writing rd (stage1 rd)) (a_applied a))
+| AN_ents rd m ot : a_phase a = Writing rd WEnts ->
+    append (a_store a) (rd_entries rd) = Ok m ->
+    app_next a n (OSetStore m) ot (with_obs a ot m (Writing rd WDone) (a_applied a))
+| AN_compact ci m ot : a_phase a = Idle ->
+    compact (a_store a) ci = Ok m -> ci <= a_applied a -> ci < next_of (a_store a) ->
+    app_next a n (OSetStore m) ot (with_obs a ot m Idle (a_applied a))
+| AN_advance rd ot : a_phase a = Writing rd WDone ->
+    app_next a n (OAdvance rd) ot
+      (with_obs a ot (a_store a) Idle (if a_cursor a =? 0 then a_applied a else a_cursor a))
+| AN_advance_append rd ot : a_phase a = Writing rd WDone ->
+    app_next a n (OAdvanceAppend rd) ot (with_obs a ot (a_store a) Idle (a_applied a))
+| AN_advance_async rd ot : a_phase a = Writing rd WDone ->
+    app_next a n (OAdvanceAppendAsync rd) ot (with_obs a ot (a_store a) Idle (a_applied a))
+| AN_persist k ot : a_phase a = Idle ->
+    app_next a n (OOnPersistReady k) ot (with_obs a ot (a_store a) Idle (a_applied a))
+| AN_apply ot : a_phase a = Idle ->
+    app_next a n OAdvanceApply ot
+      (with_obs a ot (a_store a) Idle (if a_cursor a =? 0 then a_applied a else a_cursor a))
+| AN_apply_to x ot : a_phase a = Idle -> x <= a_cursor a ->
+    app_next a n (OAdvanceApplyTo x) ot
+      (with_obs a ot (a_store a) Idle (if x =? 0 then a_applied a else x)).
+
+Lemma app_next_ok a n o ot a' : app_next a n o ot a' -> app_ok a o.
+Proof.
+  intros H. destruct H; cbn [app_ok]; auto.
+  - right. rewrite H. exact H0.
+  - right. rewrite H. exact H0.
+  - right. rewrite H. eauto.
+Qed.
+
+(* the environment: messages as a library peer builds them *)
+Definition peer_msgs_ok (m : msg) : Prop :=
+  (m_type m = MsgAppend ->
+     contiguous_from (m_index m + 1) (m_entries m) /\ nz_terms (m_entries m)
+     /\ m_index m + N.of_nat (length (m_entries m)) < u64_max
+     /\ (m_index m = 0 \/ m_log_term m <> 0))
+  /\ (m_type m = MsgSnapshot -> 1 <= s_index (m_snapshot m) < u64_max).
+
+Definition peer_ok (o : op) : Prop := match o with OStep m => peer_msgs_ok m | _ => True end.
+
+(* u64 head-room, plain arithmetic on the last index: one more entry (a new leader's empty
+   entry, an auto-leave entry) plus the entries of a stepped proposal must fit *)
+Definition op_len (o : op) : N :=
+  match o with OStep m => N.of_nat (length (m_entries m)) | _ => 0 end.
+Definition idx_margin (n : rawnode) (o : op) : Prop := nlast n + 1 + op_len o < u64_max.
+
+(* records whose snapshot the storage must already hold *)
+Definition recs_done (a : appstate) (n : rawnode) : list ready_record :=
+  match a_phase a with
+  | Writing _ WSnap => removelast (rn_records n)
+  | _ => rn_records n
+  end.
+
+Definition phase_ok (a : appstate) (n : rawnode) : Prop :=
+  match a_phase a with
+  | Idle => True
+  | Writing rd st =>
+      let l := nlog n in
+      let rr := List.last (rn_records n) rr_default in
+      rn_records n <> []
+      /\ rd_entries rd = u_entries (unst l)
+      /\ rd_snapshot rd = match u_snapshot (unst l) with Some s => s | None => snap_default end
+      /\ rr_last_entry rr = rec_last_of (u_entries (unst l))
+      /\ rr_snapshot rr = option_map (fun s => (s_index s, s_term s)) (u_snapshot (unst l))
+      /\ (forall s, u_snapshot (unst l) = Some s -> rn_commit_since_index n = s_index s)
+      /\ match st with
+         | WSnap => u_snapshot (unst l) <> None
+         | WEnts => snap_written l /\ u_entries (unst l) <> []
+         | WDone => snap_written l /\ (u_entries (unst l) <> [] -> ents_written l)
+         end
+  end.
+
+(* the coupling invariant between the application's view and the node *)
+Record Good (a : appstate) (n : rawnode) : Prop := mkGood {
+  g_good : NGood false n;
+  g_store : a_store a = store (nlog n);
+  g_hist : Hist n (a_hist a);
+  g_applied : a_applied a = applied (nlog n);
+  g_app_le : applied (nlog n) <= rn_commit_since_index n;
+  g_csi_commit : rn_commit_since_index n <= committed (nlog n);
+  g_csi_stable : rn_commit_since_index n < u_offset (unst (nlog n));
+  g_limit : max_apply_unpersisted_log_limit (nlog n) = 0;
+  g_first : first_of (store (nlog n)) <= rn_commit_since_index n + 1;
+  g_snap_pos : forall s, u_snapshot (unst (nlog n)) = Some s -> 1 <= s_index s;
+  g_got : a_got a = true -> 1 <= committed (nlog n);
+  g_recs : forall rr i t, In rr (recs_done a n) -> rr_snapshot rr = Some (i, t) ->
+                          i < first_of (store (nlog n));
+  g_phase : phase_ok a n
+}.
+
+Lemma Good_cursor a n : Good a n -> a_cursor a = rn_commit_since_index n.
+Proof. intros G. destruct (g_hist a n G) as [_ E]. unfold a_cursor. symmetry. exact E. Qed.
+
+Lemma Good_NLI a n : Good a n -> NLI false n.
+Proof. intros G. exact (proj1 (proj2 (g_good a n G))). Qed.
+
+Lemma Good_CsiOK a n : Good a n -> CsiOK n.
+Proof. intros G. exact (proj2 (proj2 (g_good a n G))). Qed.
+
+(* ================================================================== *)
+(* Part 3. One contract-abiding call                                    *)
+(* ================================================================== *)
+
+(* ---- the side conditions of C14 / C07 / C20 follow from the contract ---- *)
+Lemma fold_records_snap recs : forall number i t si,
+  snd (fold_records recs number i t si) = si
+  \/ exists rr ti, In rr recs /\ rr_snapshot rr = Some (snd (fold_records recs number i t si), ti).
+Proof.
+  induction recs as [|rr rest IH]; intros number i t si; cbn [fold_records]; [left; reflexivity|].
+  destruct (number <? rr_number rr); [left; reflexivity|].
+  destruct (rr_snapshot rr) as [[si' ti']|] eqn:Es.
+  - destruct (rr_last_entry rr) as [[a b]|];
+      match goal with |- context [fold_records rest number ?x ?y ?z] =>
+        destruct (IH number x y z) as [E|(r & ti & Hin & E)] end;
+      try (right; exists r, ti; split; [right; exact Hin|exact E]);
+      right; exists rr, ti'; (split; [left; reflexivity|]); rewrite E; exact Es.
+  - destruct (rr_last_entry rr) as [[a b]|];
+      match goal with |- context [fold_records rest number ?x ?y ?z] =>
+        destruct (IH number x y z) as [E|(r & ti & Hin & E)] end;
+      try (left; exact E); right; exists r, ti; (split; [right; exact Hin|exact E]).
+Qed.
+
+Lemma persist_pre_of_recs n number :
+  (forall rr i t, In rr (rn_records n) -> rr_snapshot rr = Some (i, t) -> i < first_of (store (nlog n))) ->
+  persist_pre n number.
+Proof.
+  intros Hr. unfold persist_pre.
+  destruct (fold_records_snap (rn_records n) number 0 0 0) as [E|(rr & ti & Hin & E)].
+  - rewrite E. intros C. lia.
+  - intros _. pose proof (Hr rr _ ti Hin E). pose proof (first_le_next (store (nlog n))). lia.
+Qed.
+
+Lemma peer_msg_wf n m : peer_msgs_ok m -> idx_margin n (OStep m) -> msg_wf (nlast n) m.
+Proof.
+  intros [Pa Ps] Hm. unfold idx_margin, op_len in Hm. unfold msg_wf. splits.
+  - intros _. lia.
+  - intros _. lia.
+  - intros E. destruct (Pa E) as (A & _ & B & _). split; assumption.
+  - intros E. exact (proj2 (Ps E)).
+Qed.
+
+Lemma ll_first_abs rw l : RepInv rw l ->
+  ll_first (abs l) = match u_snapshot (unst l) with
+                     | Some s => s_index s + 1 | None => first_of (store l) end.
+Proof.
+  intros H. unfold ll_first, abs. destruct (u_snapshot (unst l)); cbn [ll_base]; [reflexivity|].
+  pose proof (first_pos _ (ri_store rw l H)). lia.
+Qed.
+
+Lemma is_setstore_dec (o : op) : {m | o = OSetStore m} + {forall m, o <> OSetStore m}.
+Proof. destruct o; try (right; intros m' E; discriminate). left. eauto. Qed.
+
+Theorem side_ok a n o :
+  Good a n -> app_ok a o -> peer_ok o -> idx_margin n o -> (forall m, o <> OSetStore m) ->
+  op_wf2 n o /\ op_pre_node2 n o.
+Proof.
+  intros G Ha Hp Hm Hns.
+  pose proof (Good_NLI a n G) as HI. pose proof (g_phase a n G) as Hph.
+  assert (Hroom : nroom 1 n) by (unfold idx_margin in Hm; unfold nroom, room; fold (nlog n); fold (nlast n); lia).
+  (* the advance calls: the Ready is in the storage *)
+  assert (Hadv : forall rd, a_phase a = Writing rd WDone ->
+            advance_pre n /\
+            (forall n1 n2, commit_ready n rd = Ok n1 -> rn_on_persist_ready n1 (rn_max_number n1) = Ok n2 ->
+               ll_first (abs (nlog n2)) <= rn_commit_since_index n2 + 1)).
+  { intros rd Ep. unfold phase_ok in Hph. rewrite Ep in Hph.
+    destruct Hph as (Hne & He & Hs & Hle & Hsn & Hcs & Hsw & Hew).
+    assert (Hcp : commit_pre n).
+    { unfold commit_pre. split; [intros _; exact Hsw|].
+      intros Hl. apply Hew. rewrite Hle in Hl. unfold rec_last_of in Hl.
+      destruct (u_entries (unst (nlog n))); [congruence|discriminate]. }
+    assert (Hpp : forall k, persist_pre n k).
+    { intros k. apply persist_pre_of_recs. intros rr i t Hin Hsn'.
+      apply (g_recs a n G rr i t); [|exact Hsn']. unfold recs_done. rewrite Ep. exact Hin. }
+    split; [split; [exact Hcp|apply Hpp]|].
+    intros n1 n2 H1 H2.
+    destruct (commit_ready_pres false _ _ _ H1 Hcp HI) as (A1 & B1 & C1 & (_ & D2 & _) & E1 & F1).
+    assert (P2' : persist_pre n1 (rn_max_number n1)).
+    { pose proof (Hpp (rn_max_number n)) as P2. unfold persist_pre in *. rewrite E1, F1, D2, C1. exact P2. }
+    destruct (rn_on_persist_ready_pres false _ _ _ H2 P2' A1) as (_ & S2).
+    rewrite (same_su_abs _ _ S2), B1, (on_persist_ready_csi _ _ _ H2), (commit_ready_csi _ _ _ H1).
+    rewrite (ll_first_abs false (nlog n) HI).
+    destruct (u_snapshot (unst (nlog n))) as [s|] eqn:Es.
+    - rewrite (Hcs s eq_refl). lia.
+    - exact (g_first a n G). }
+  destruct o; cbn [app_ok peer_ok] in Ha, Hp; try (exfalso; eapply Hns; reflexivity).
+  - (* step *)
+    pose proof (peer_msg_wf n m Hp Hm) as W. destruct Hp as [Pa Ps].
+    split; [split; [exact W|split]|split; [exact W|exact I]].
+    + intros E. destruct (Pa E) as (A & B & C0 & D). split; [split; assumption|].
+      split; [exact B|]. destruct D as [D|D]; [left; lia|right; exact D].
+    + intros E. exact (proj1 (Ps E)).
+  - split; [split; [exact Hroom|exact I]|split; [exact Hroom|exact I]].
+  - split; [split; [exact Hroom|exact I]|split; [exact Hroom|exact I]].
+  - split; [split; [exact Hroom|exact I]|split; [exact Hroom|exact I]].
+  - split; [split; [exact Hroom|exact I]|split; [exact Hroom|exact I]].
+  - (* apply_conf_change *)
+    destruct Ha as [_ Hg]. split; [split; [exact I|]|split; exact I].
+    pose proof (g_got a n G Hg). pose proof (proj1 (NLI_bounds false n HI)). unfold nlast. lia.
+  - split; [split; exact I|split; exact I].
+  - (* ready *)
+    split; [split; exact I|split; [exact I|]].
+    rewrite (ll_first_abs false (nlog n) HI). unfold ready_since. fold (nlog n).
+    destruct (u_snapshot (unst (nlog n))); [lia|exact (g_first a n G)].
+  - destruct (Hadv rd Ha) as [A B]. split; [split; [split; assumption|exact I]|split; [split; assumption|exact B]].
+  - destruct (Hadv rd Ha) as [A B]. split; [split; [exact A|exact I]|split; [exact A|exact B]].
+  - destruct (Hadv rd Ha) as [[A _] _]. split; [split; [exact A|exact I]|split; [exact A|exact I]].
+  - (* on_persist_ready *)
+    assert (P : persist_pre n number).
+    { apply persist_pre_of_recs. intros rr i t Hin Hsn. apply (g_recs a n G rr i t); [|exact Hsn].
+      unfold recs_done. rewrite Ha. exact Hin. }
+    split; [split; [exact P|exact I]|split; [exact P|exact I]].
+  - split; [split; [intros _; exact Hroom|exact I]|split; [intros _; exact Hroom|exact I]].
+  - split; [split; [intros _; exact Hroom|exact I]|split; [intros _; exact Hroom|exact I]].
+  - split; [split; exact I|split; exact I].
+  - split; [split; exact I|split; exact I].
+  - split; [split; exact I|split; exact I].
+  - split; [split; exact I|split; exact I].
+  - split; [split; exact I|split; exact I].
+Qed.
